@@ -676,6 +676,25 @@ func ConvertToSameType(leftType, rightType interface{}) (interface{}, interface{
 		return leftType, rightType
 	}
 
+	// a number against text that reads as a number is compared by value, however the text
+	// writes it ("2.50", "+5", "1e0"): the text of the number matches only one way of writing it
+	leftStr, leftIsStr := leftType.(string)
+	rightStr, rightIsStr := rightType.(string)
+	if leftIsStr != rightIsStr {
+		text, number := leftStr, rightType
+		if rightIsStr {
+			text, number = rightStr, leftType
+		}
+		textVal, textErr := strconv.ParseFloat(text, 64)
+		numberVal, numberErr := ConvertToFloat(number, 64)
+		if textErr == nil && numberErr == nil {
+			if rightIsStr {
+				return numberVal, textVal
+			}
+			return textVal, numberVal
+		}
+	}
+
 	// keep the original values when the conversion fails: ConvertExpToType returns a zero value
 	// with the error, and comparing that zero made `2.5 = 0` true.
 	var converted interface{}
